@@ -161,3 +161,24 @@ func (c Case) Build() (*Schema, protoreflect.Message, error) {
 	}
 	return s, msg, nil
 }
+
+func B64(s string) ([]byte, error) { return base64.StdEncoding.DecodeString(s) }
+func ToB64(b []byte) string        { return base64.StdEncoding.EncodeToString(b) }
+
+// BuildSchemaOnly links the case's files without decoding a message.
+func (c Case) BuildSchemaOnly() (*Schema, protoreflect.Message, error) {
+	var pbs []*descriptorpb.FileDescriptorProto
+	for _, f := range c.Files {
+		b, err := base64.StdEncoding.DecodeString(f)
+		if err != nil {
+			return nil, nil, err
+		}
+		pb := &descriptorpb.FileDescriptorProto{}
+		if err := proto.Unmarshal(b, pb); err != nil {
+			return nil, nil, err
+		}
+		pbs = append(pbs, pb)
+	}
+	s, err := NewSchema(pbs...)
+	return s, nil, err
+}
